@@ -207,7 +207,7 @@ TIERS = {
     "C17": {"quick": (6000, 600, 60, 16), "thorough": (400000, 2400, 60, 16)},
     "C18": {"quick": (12000, 900, 120, 16), "thorough": (400000, 3600, 120, 16)},
     "C14": {"quick": (6000, 600, 120, 16), "thorough": (300000, 3000, 120, 16)},
-    "C01": {"quick": (96, 2400, 900, 16), "thorough": (1600, 7200, 900, 16)},
+    "C01": {"quick": (112, 2400, 900, 16), "thorough": (1600, 7200, 900, 16)},
 }
 
 
